@@ -421,7 +421,8 @@ impl Ctx {
             if let Some(k) = self.known.lookup(&self.prop, sig) {
                 let mut p = self.printed_known.lock().unwrap();
                 if p.insert(sig.to_string()) {
-                    println!("KNOWN-FINDING: property={} {} [{}]", self.prop, k.what, sig);
+                    let this_run: String = msg.chars().take(300).collect();
+                    println!("KNOWN-FINDING: property={} {} [{}] this run: {}", self.prop, k.what, sig, this_run);
                 }
                 drop(p);
                 match acc {
